@@ -293,7 +293,7 @@ struct Worker {
 
 impl Worker {
     fn wait(&mut self) -> Option<String> {
-        match self.rx.recv_timeout(std::time::Duration::from_secs(20)).expect("worker stuck or died") {
+        match self.rx.recv_timeout(std::time::Duration::from_secs(6)).expect("worker stuck or died") {
             Ev::At(l) => {
                 self.st = St::Parked;
                 self.at = l;
@@ -318,7 +318,7 @@ impl Worker {
             None => Cmd::Go,
         })
         .unwrap();
-        let (d, st) = match self.rx.recv_timeout(std::time::Duration::from_secs(20)).expect("worker stuck or died") {
+        let (d, st) = match self.rx.recv_timeout(std::time::Duration::from_secs(6)).expect("worker stuck or died") {
             Ev::Performed(d, st) => (d, st),
             _ => panic!("engine protocol error: Performed expected"),
         };
